@@ -102,6 +102,8 @@ Cut(r) == AbortSeen(r) \/ (r.cfg.stop /\ Wrong(r))      \* the run may have been
 Ran(r) == r.end.ran
 
 \* ---------------------------------------------------------------- enrichment (computed once per row)
+\* --wip: only scenarios tagged wip are selected, the run stops at the first failure, stdout and logging are not captured
+EffCfg(c) == IF c.wip THEN [c EXCEPT !.stop = TRUE, !.cap_out = FALSE, !.cap_log = FALSE] ELSE c
 Enrich(r0) ==
    LET els == DOMAIN r0.prog
        anc == [el \in els |-> AncRaw(r0, el)]
@@ -113,12 +115,12 @@ Enrich(r0) ==
        \* skip entries whose hook really ran
        done(k) == \E i \in I : E[i].k = "hook" /\ E[i].name = r0.skips[k].name /\ E[i].el = r0.skips[k].el
        skipped == {r0.skips[k].el : k \in {j \in DOMAIN r0.skips : done(j)}}
-   IN [prog |-> r0.prog, cfg |-> r0.cfg, skips |-> r0.skips, hookcl |-> r0.hookcl, events |-> r0.events, end |-> r0.end, base |-> r0.base,
+   IN [prog |-> r0.prog, cfg |-> EffCfg(r0.cfg), skips |-> r0.skips, hookcl |-> r0.hookcl, events |-> r0.events, end |-> r0.end, base |-> r0.base,
        x |-> [anc |-> anc, eff |-> eff,
               hskip |-> [el \in els |-> (({el} \cup anc[el]) \cap skipped) # {}],
               askip |-> [el \in els |-> (anc[el] \cap skipped) # {}],
               desc |-> [el \in els |-> {y \in els : el \in anc[y]}],
-              match |-> [el \in els |-> EvalX(r0.cfg.nodes, r0.cfg.root, eff[el])],
+              match |-> [el \in els |-> EvalX(r0.cfg.nodes, r0.cfg.root, eff[el]) /\ (r0.cfg.wip => "wip" \in eff[el])],
               last |-> last,
               called |-> {<<E[i].el, E[i].pos>> : i \in {j \in I : E[j].k = "step" /\ E[j].att = last[E[j].el]}},
               shr |-> {<<E[i].el, E[i].pos>> : i \in {j \in I : IsStepHook(E[j]) /\ E[j].raised /\ E[j].att = last[E[j].el]}},
